@@ -7,9 +7,13 @@ EXTRA["C34"] = {
             "`exported_syms` set hold 0..2 entries with symbolic names, for a symbolic accessed name; z3 decides that "
             "a value is pushed iff the name is in both, that it is that name's value, and that every refusal is an "
             "exception restoring exactly the receiver; and the real insert_imported_namespace (unqualified import) "
-            "copies exactly the exported definitions. A two-file native project is the user-visible oracle.",
+            "copies exactly the exported definitions. Part B (loader kernel): the real import arm of load_toplevel_items_ is "
+            "executed on one import (with / without alias; file seen before or not; read / parse succeed or fail) with "
+            "reading, parsing and the recursive load stubbed and insert_imported_namespace recording its calls; decided: "
+            "every resolved import runs that step exactly once with its alias, the importing and the imported namespace. "
+            "Native two-file, diamond and duplicate-import projects are the user-visible oracle.",
     "note": "Trusted: rsx, association-list model of FxHashMap/FxHashSet, z3. The checker side "
-            "(infer_namespace_access) and cyclic import loading are file-system and whole-Env code, outside the claim.",
+            "(infer_namespace_access), path resolution and the contents of cyclically loaded files are outside the claim.",
     "design_ref": "DESIGN.md section 6, C34",
 }
 
@@ -126,9 +130,13 @@ EXTRA["C23"] = {
             "offset (sources of 2 arbitrary characters and 3 over an 8-symbol alphabet with quote, LF, backslash, a "
             "2-byte letter; thorough 3 arbitrary / 4 over the alphabet). (2) the real Position::merge on two fully "
             "symbolic positions consistent w.r.t. uninterpreted monotone line/column functions yields a consistent "
-            "position. Replay through `garden verif lex` against an independent byte-level oracle.",
+            "position. (3) reporting kernel: the real syntax_check::check (what `garden check --json` prints) is executed with "
+            "parsing / loading / checking stubbed to hand it parse errors and diagnostics with fully symbolic positions and "
+            "serde_json::to_string recording what is serialised; decided: every reported line/column field is the "
+            "position's own (+1 for the 1-indexed lines). Replay through `garden verif lex` against an independent "
+            "byte-level oracle, and multi-line diagnostics through `garden check --json`.",
     "note": "Trusted: rsx, NFA simulation, z3. Positions built elsewhere (Position::todo, diagnostics widened to a line, "
-            "LSP ranges, JSON rendering) are outside the claim.",
+            "LSP ranges - C29 -, the JSON session's own rendering) are outside the claim.",
     "design_ref": "DESIGN.md section 6, C23",
 }
 
